@@ -44,18 +44,29 @@ def dec(x):
         return float.fromhex(x["v"])
     if t == "seq":
         return [float(i) for i in range(x["n"])]
+    if t == "inf":
+        return float("inf") if x["pos"] else float("-inf")
+    if t == "npint":
+        return getattr(np, x["dt"])(int(x["v"]))
+    if t == "npfloat":
+        v = getattr(np, x["dt"])(float.fromhex(x["v"]))
+        if float(v) != float.fromhex(x["v"]):
+            raise ValueError("value is not exact in " + x["dt"])
+        return v
+    if t == "npnan":
+        return getattr(np, x.get("dt", "float32"))("nan")
     raise ValueError(t)
 
 
 def same_value(a, b) -> bool:
-    if isinstance(b, float) and math.isnan(b):
-        return isinstance(a, float) and math.isnan(a)
+    if isinstance(b, (float, np.floating)) and math.isnan(b):
+        return isinstance(a, (float, np.floating)) and math.isnan(a)
     if isinstance(b, list):
         try:
             return list(a) == b
         except TypeError:
             return False
-    return a == b and (a is None) == (b is None)
+    return bool(a == b) and (a is None) == (b is None)
 
 
 def classify_exc(ex) -> dict:
@@ -206,7 +217,10 @@ def handle_guard(p):
                 if field == "avalanche_gain" and x is None:
                     kw["common_voltage"] = 2.0      # the bias must then come from the two voltages
                 obj = C(**kw)
-            stored = obj.to_dict().get(field)
+            try:
+                stored = obj.to_dict().get(field)
+            except AttributeError:      # Environment.to_dict() cannot serialise a wavelength carried by a numpy scalar
+                stored = getattr(obj, "_" + field)
         elif path == "yaml":
             sec[sec_name] = {**sec[sec_name], field: x}
             if field == "avalanche_gain" and x is None:
